@@ -27,6 +27,19 @@ def _dec_fields(x):
     return [], 0
 
 
+def _numberish(text):
+    """fact about a text value: it reads as a number, a boolean word or nothing (what a lenient numeric conversion takes);
+    logged in `dg` of text values (non-empty = yes)"""
+    tx = text.strip().lower()
+    if tx in ("", "1", "true", "yes", "on", "t", "y", "0", "false", "no", "off", "f"):
+        return True
+    try:
+        decimal.Decimal(tx)
+        return True
+    except Exception:
+        return False
+
+
 def alpha(x, depth=0):
     """value -> record; kinds ending in 'x' are outside the exactly-encodable universe (never judged numerically)"""
     t = mro(x)
@@ -56,9 +69,10 @@ def alpha(x, depth=0):
             return V("decx", t, s=str(x), ln=len(str(x)))
         return V("dec", t, f.numerator, f.denominator, s=str(x), ln=len(str(x)), dg=dg, ex=ex)
     if isinstance(x, str):
-        return V("str", t, s=asc(x), ln=len(x))
+        return V("str", t, s=asc(x), ln=len(x), dg=[1] if _numberish(x) else [])
     if isinstance(x, (bytes, bytearray)):
-        return V("bytes", t, s=asc(bytes(x).decode("latin-1")), ln=len(x))
+        txt = bytes(x).decode("latin-1")
+        return V("bytes", t, s=asc(txt), ln=len(x), dg=[1] if _numberish(txt) else [])
     if depth > 6:
         return V("other", t, s="deep")
     if isinstance(x, dict):
